@@ -189,3 +189,12 @@ def _emptied(prop, case, f):
     m = f.get("msg", "")
     return (m.startswith("When appending, partitioning columns must match") or m.startswith("No partitioning column has been set")
             or m.startswith("Column names of new data are"))
+
+
+@pred("failed-rewrite-destroys-existing-dataset")
+def _rewrite(prop, case, f):
+    # a non-append write() opens its target(s) with 'wb' before the data has been validated/encoded: when it then fails, the
+    # dataset that was there is already truncated / partly overwritten
+    if prop != "C18" or f.get("mode") != "rewrite" or not f.get("opened_for_writing"):
+        return False
+    return f.get("kind", "").startswith(("dataset_unreadable_after_rejection", "content_changed_after_rejection", "existing_part_file_unreadable_after_rejection"))
